@@ -689,6 +689,9 @@ func GenerateRun(seed uint64, opt GenOptions) (*World, []Op) {
 	if g.opt.Avoid["no_external_auth"] {
 		opt.ExcludeIngressKeys = append(append([]string{}, opt.ExcludeIngressKeys...), "auth-url", "oauth", "auth-external-placement")
 	}
+	if g.opt.Avoid["no_app_root"] {
+		opt.ExcludeIngressKeys = append(append([]string{}, opt.ExcludeIngressKeys...), "app-root")
+	}
 	if g.opt.Avoid["no_header_match"] {
 		opt.ExcludeIngressKeys = append(append([]string{}, opt.ExcludeIngressKeys...), "http-header-match", "http-header-match-regex")
 	}
